@@ -5,6 +5,7 @@
 set -u
 SD=$1; shift
 WT=/var/tmp/m-wt; MB=/var/tmp/m-build
+[ -d $WT ] || git -C /repo worktree add --detach $WT HEAD >/dev/null 2>&1   # scratch worktree (remove with: git -C /repo worktree remove --force /var/tmp/m-wt; rm -rf /var/tmp/m-build)
 git -C $WT checkout -q -- . && git -C $WT reset -q --hard "$(git -C /repo rev-parse HEAD)"
 git -C $WT apply "$SD/patch.diff" || { echo "PATCH DOES NOT APPLY"; exit 3; }
 git -C $WT diff --stat | tail -1
